@@ -253,8 +253,9 @@ def _reset_manager(m, ctx, leak):
         dirty.append("_in_eigenbasis_of_context")
         m._in_eigenbasis_of_context = False
     cu = dict(m.current_units)
-    if cu.get("energy") != "1/fs" or cu.get("frequency") != "1/fs" or cu.get("length") != "A":
+    if cu.get("energy") not in ("1/fs", "int") or cu.get("frequency") not in ("1/fs", "int") or cu.get("length") != "A":
         dirty.append("current_units=%r" % (cu,))
+    if cu.get("energy") != "1/fs" or cu.get("frequency") != "1/fs" or cu.get("length") != "A":
         m.current_units["energy"] = "1/fs"
         m.current_units["frequency"] = "1/fs"
         m.current_units["length"] = "A"
